@@ -216,6 +216,22 @@ func (w *world) serve(c *cache.RepoCache, desc bool) (map[string]string, []entit
 		fmt.Fprintf(&one, " timeline=%d actors=%d participants=%d\n", len(s.Timeline), len(s.Actors), len(s.Participants))
 		snaps[i] = one.String()
 	}
+	// every bug this session ever knew and the cache does not list any more (removed): it must not be served by id either
+	listed := map[entity.Id]bool{}
+	for _, id := range ids {
+		listed[id] = true
+	}
+	for _, id := range w.bugIds {
+		if listed[id] {
+			continue
+		}
+		if b, err := c.Bugs().Resolve(id); err == nil {
+			snaps = append(snaps, fmt.Sprintf("%s is not listed, yet resolves (%d operations)\n", id, len(b.Snapshot().Operations)))
+		}
+		if _, err := c.Bugs().ResolveExcerpt(id); err == nil {
+			snaps = append(snaps, fmt.Sprintf("%s is not listed, yet has an excerpt\n", id))
+		}
+	}
 	f["snapshots"] = strings.Join(snaps, "")
 	f["labels"] = fmt.Sprint(c.Bugs().ValidLabels())
 	sb.Reset()
